@@ -160,6 +160,14 @@ func (g *Gen) oddSpellings(p *prng, name, base string) []string {
 	if m != nil {
 		nd := len(digitRun.FindAllString(m[2], -1))
 		out = append(out, m[1]+replaceNth(digitRun, m[2], p.n(nd), "18446744073709551617")+m[3])
+		// very long inputs take their own paths (fixed-size buffers, length
+		// thresholds): a long numeric core and a long suffix
+		if p.chance(1, 3) {
+			out = append(out, m[1]+m[2]+strings.Repeat(".1", 60+p.n(120))+m[3])
+			if suf != "" {
+				out = append(out, m[1]+m[2]+suf+strings.Repeat(".x1", 40+p.n(80)))
+			}
+		}
 	}
 	return out
 }
@@ -256,7 +264,7 @@ func (g *Gen) familyOf(p *prng, name, base string) family {
 	}
 	tm := g.templates[name]
 	addR := func(r string) {
-		if len(r) > 120 || len(f.rs) >= 14 || !tryR(e, r) {
+		if len(r) > 800 || len(f.rs) >= 14 || !tryR(e, r) {
 			return
 		}
 		for _, x := range f.rs {
